@@ -315,6 +315,23 @@ fn boundary_cases(tier: Tier) -> Vec<Case> {
     for prog in super::evalorder::SELF_TARGET_PROGRAMS {
         v.push(Case::new(prog.to_string(), 3, "targets, indices or bounds that reach the container being assigned".to_string()));
     }
+    // every byte slice of strings with multi-byte characters, in every position that takes a string
+    for s in ["né", "€", "a😀b", "éé"] {
+        let n = s.len();
+        for a in 0..=n {
+            for b in a..=n {
+                if s.is_char_boundary(a) && s.is_char_boundary(b) {
+                    continue;
+                }
+                for usage in [
+                    "n := 0\nfor [i, c] in f {\nn += 1\n}\nprint(n)\n", "for c in f {\nprint(c[0])\n}\n", "print(f->len())\n", "print(f + f == f)\n", "print($\"<${f}>\"->len())\n", "o := {f: 1}\nprint(o[f])\n",
+                    "o := {}\no[f] = 1\nfor [k, v] in o {\nprint(v)\n}\n", "print([f] == [f])\n", "print(f < \"z\")\n", "print(f[0:1]->len())\n", "print([f, 1])\n", "print({\"k\": f})\n", "x := [f..]\n", "print(f->type())\n", "xs := [1]\nprint(xs[f])\n", "print({\"a\": 1}[f])\n", "{f: q} := {\"a\": 1}\n",
+                ] {
+                    v.push(Case::new(format!("s := \"{}\"\nf := s[{}:{}]\nprint(\"pre\")\n{}print(\"post\")\n", s, a, b, usage), 3, format!("bytes {}..{} of {:?} used in {:?}", a, b, s, usage.replace('\n', " "))));
+                }
+            }
+        }
+    }
     for prog in super::evalorder::deep_print_programs() {
         v.push(Case::new(prog, 3, "a value nested many containers deep, printed".to_string()));
     }
